@@ -222,6 +222,13 @@ def run(chk):
     from . import c06
     c06.check_table_receivers(chk, tus, 'R04.4')
     chk.floor('R04.4', 12)
+    # R04.5: the function index space of the binary - imports first, one slot per import entry (the same host function imported twice
+    # occupies two slots), then the defined functions: the import-section reader keeps every entry (grammar rule shared with C08 R08.8)
+    from . import c08
+    rtu = astdb.dump_ast(astdb.src('w2c2/reader.c'))
+    chk.unit(rtu)
+    c08.check_section_grammar(chk, rtu, rule='R04.5', only=('wasmReadImportSection', 'wasmReadImportSection#2', 'wasmReadFunctionSection'))
+    chk.floor('R04.5', 6)
     chk.floor('R04.1', 40)
     chk.floor('R04.2', 12)
     chk.floor('R04.3', 20)
